@@ -201,7 +201,7 @@ def gen_tiger(rng, gamma):
 
 TINY = F(1, 2**30)
 NEAR1 = "1048575/1048576"          # 1 - 2^-20, exact in binary floating point
-LABEL_KINDS = ["int", "str", "tuple", "float"]
+LABEL_KINDS = ["int", "str", "tuple", "float", "signed", "signed"]
 
 
 def dup_action(rng, pc):
@@ -341,7 +341,7 @@ def degenerate_case():
           "absorbing": [False], "init": [[0, "1"]], "gamma": "1/2", "nO": 1, "obs": {"0,0": [[0, "1"]]},
           "obs_kinds": ["single"]}
     return {"pomdp": pc, "pbvi": {"min_exp": 1, "max_exp": 2, "eps": "1/100", "horizon": 10},   # one reward value: horizon=None divides by rmax-rmin = 0 (reported)
-            "beliefs": [["1"]], "belief_kinds": ["initial"], "qmdp_solvers": ["vi", "pi"], "fullobs": True,
+            "beliefs": [["1"]], "belief_kinds": ["initial"], "qmdp_solvers": ["vi", "pi", "vi_dict", "pi_params"], "fullobs": True,
             "template": "degenerate", "labels": {"states": "int", "actions": "int", "obs": "int"},
             "reuse": "warm-twisted-first", "touch_first": False, "initial_index": 0, "variants": ["degenerate"]}
 
@@ -460,7 +460,7 @@ def gen_case(rng, tier, force=None):
     if fullobs:
         labels["obs"] = labels["states"]      # keeps "observation index = state index" in msdm's sorted orders
     return {"pomdp": pc, "pbvi": cfg, "beliefs": beliefs, "belief_kinds": kinds,
-            "qmdp_solvers": ["pi"] if gamma == NEAR1 else ["vi", "pi"], "fullobs": fullobs,
+            "qmdp_solvers": ["pi", "pi_params"] if gamma == NEAR1 else ["vi", "pi", "vi_dict", "pi_params"], "fullobs": fullobs,
             "template": pc["obs_kinds"][0] if pc["obs_kinds"][0] in ("tiger", "identity") else "random",
             "labels": labels,
             "reuse": rng.choice([None, None, None, "warm-twisted-first", "warm-twisted-first", "other-first", "stale", "stale"]),
@@ -720,7 +720,7 @@ def run(ctx):
             qtol = F(1, 10**8) * scale
             scale_of[i] = scale
             terms.append("q_rep %s %s %s %s %s %s %s %s" % (
-                pt, q(qtol), q(tol + qtol * 2), q(ptol), nat(k), qlist(Vs), qmat(qr["Q"]),
+                pt, q(qtol), q(tol + qtol * 2), q(ptol), nat(k if name in ("vi", "pi") else min(k, 1)), qlist(Vs), qmat(qr["Q"]),
                 entries(beliefs, qr["queries"])))
             meta.append(("q:" + name, i))
             ents = rep_entries(qr["queries"])
@@ -912,10 +912,12 @@ def run(ctx):
                 explained = neartie and all(
                     -(2 * max(gaps) / (1 - F(pc["gamma"])) + qtol_) <= fr(qr["Q"][s2][a]) - Qs[s2][a] <= qtol_
                     for s2 in range(pc["n"]) for a in range(pc["nA"]))
-                suffix = ":discount-within-1e-5-of-1" if near1 else \
-                    ":optimal-action-values-differ-by-less-than-isclose-band" if (explained and name == "pi") else ""
-                ctx.violation("C08:qmdp-%s:table-is-not-the-optimal-action-values%s" % (name, suffix),
-                              dict(base, Q=qr["Q"], Q_exact=[[str(x) for x in r] for r in Qs], worst=str(worst), solver=name,
+                # PolicyIteration with other constructor parameters is the same solver: same signature family
+                fam = "pi" if name == "pi_params" else name
+                suffix = ":discount-within-1e-5-of-1" if (near1 and fam == "pi") else \
+                    ":optimal-action-values-differ-by-less-than-isclose-band" if (explained and fam == "pi" and not near1) else ""
+                ctx.violation("C08:qmdp-%s:table-is-not-the-optimal-action-values%s" % (fam, suffix),
+                              dict(base, Q=qr["Q"], Q_exact=[[str(x) for x in r] for r in Qs], worst=str(worst), solver=name, solver_family=fam,
                                    signature_class_rule="suffix ':optimal-action-values-differ-by-less-than-isclose-band' is appended (solver pi only, gamma < 1-1e-5) iff the EXACT optimal table has, in some state, two different action values with |Q(s,a)-Q(s,b)| <= 1e-8 + 1e-5*max|Q| (np.isclose's default band, which policy iteration's tie test uses) AND every entry of the returned table lies in [Q* - 2G/(1-gamma) - qtol, Q* + qtol] with G the largest such gap (i.e. the deviation is an under-estimate no larger than merging those actions can cause); any other deviation keeps the plain signature; suffix ':discount-within-1e-5-of-1' is appended iff the case's discount rate gamma >= 1 - 1e-5 (here gamma = %s): the solver's tie test (np.isclose, rtol 1e-5 relative to |Q| ~ 1/(1-gamma)) cannot separate actions there; for every smaller discount the plain signature is used and is NOT covered by the known finding" % pc["gamma"]),
                               found=bool(worst > tol * 100) or bool(suffix.startswith(":optimal")))
             fullobs = bool(case.get("fullobs"))
